@@ -2,4 +2,5 @@
 # usage: ./check.sh <property id> <quick|thorough>
 cd "$(dirname "$0")"
 [ -x bin/govc ] || ./setup.sh >/dev/null 2>&1
+export VERIF_ROOT="${VERIF_ROOT:-$(pwd)}"
 exec bin/govc check -prop "$1" -tier "${2:-quick}" -par 8
